@@ -217,6 +217,79 @@ def h_extract_tile_info(n):
         prove("non_empty_extents_disjoint", Or(sa == 0, sb == 0, a + sa <= b, b + sb <= a))
 
 
+def h_patch_hdr(n, levels):
+    """_patch_hdr: what is written into the TileOffsets / TileByteCounts tags of every page: the
+    n observed tiles (sizes symbolic, order symbolic, overview tiles and full-resolution tiles
+    mixed) lie back to back after the header in observed order -- the first one written directly
+    behind the header --, byte counts are the sizes"""
+    import sys
+    import types
+
+    import odc.geo.cog._tifffile as tf
+
+    m = mk_meta("YX", 32, 32, 16, 16, 1, overviews=[mk_meta("YX", 16, 16, 16, 16, 1)] if levels == 2 else ())
+    mm = m.flatten()
+    ids = ([(len(mm) - 1, 0, 0, 0)] if len(mm) > 1 else []) + [(0, 0, 0, 0), (0, 0, 0, 1), (0, 0, 1, 0), (0, 0, 1, 1)]
+    ids = ids[:n]
+    perms = list(itertools.permutations(range(n)))
+    k = Int("perm", 0, len(perms) - 1)
+    k = k.__index__() if isinstance(k, symx.Sym) else k
+    perm = perms[k]
+    sizes = [Int(f"size{i}", 0) for i in range(n)]
+    HDR = 1000
+    conc = symx.concrete_mode()
+    written = {}
+
+    class _Tag:
+        def __init__(self, page, code):
+            self.page, self.code = page, code
+
+        def overwrite(self, value):
+            written[(self.page, self.code)] = list(value) if not isinstance(value, (bytes, str)) else value
+
+    class _Page:
+        def __init__(self, i):
+            self.tags = {324: _Tag(i, 324), 325: _Tag(i, 325)}
+
+    class _Pages(list):
+        @property
+        def first(self):
+            return self[0]
+
+    class _TF:
+        def __init__(self, fh, mode=None, name=None):
+            self.pages = _Pages(_Page(i) for i in range(len(mm)))
+
+        def __enter__(self):
+            return self
+
+        def __exit__(self, *a):
+            return False
+
+    stub = types.ModuleType("tifffile")
+    stub.TiffFile, stub.TiffPage = _TF, _Page
+    saved = sys.modules.get("tifffile")
+    sys.modules["tifffile"] = stub
+    try:
+        tiles = [(sizes[i], ids[i]) for i in perm]
+        out = tf._patch_hdr(tiles, m, b"h" * HDR)
+    finally:
+        if saved is None:
+            sys.modules.pop("tifffile", None)
+        else:
+            sys.modules["tifffile"] = saved
+    prove("header_bytes_returned", isinstance(out, bytes) and len(out) == HDR)
+    prove("both_tags_of_every_page_written", set(written) == {(i, c) for i in range(len(mm)) for c in (324, 325)})
+    pos = HDR
+    for i in perm:
+        lvl = ids[i][0]
+        fi = mm[lvl].flat_tile_idx(ids[i][1:])
+        sz = sizes[i]
+        prove(f"tile{i}_byte_count", written[(lvl, 325)][fi] == sz)
+        prove(f"tile{i}_offset_is_header_plus_what_was_written_before", written[(lvl, 324)][fi] == pos, when=sz > 0)
+        pos = pos + sz
+
+
 def h_level_geoboxes(nlevels):
     """cog_gbox pads to the right/bottom only; each level halves the shape exactly, doubles the
     pixel size and keeps the origin"""
@@ -760,6 +833,10 @@ OBLIGATIONS = [
     Ob("L6_level_geoboxes", h_level_geoboxes, tiered([dict(nlevels=n) for n in (1, 2)], [dict(nlevels=n) for n in (1, 2, 3, 5)]),
        descr="cog_gbox(nlevels): padded right/bottom only; each level exactly half the previous, pixel size doubles with the origin fixed",
        functions=("odc.geo.cog._shared.cog_gbox", "odc.geo.geobox.GeoBox.expand", "odc.geo.types.Shape2d.shrink2", "odc.geo.geobox.GeoBox.zoom_to"), bounds="fully symbolic affine and shape; level count from grid", setup=setup, timeout_ms=20000),
+    Ob("L5_patch_hdr", h_patch_hdr, tiered([dict(n=3, levels=1), dict(n=2, levels=2)], [dict(n=n, levels=l) for n in (1, 2, 3, 4) for l in (1, 2)]),
+       descr="_patch_hdr: TileOffsets = header size + bytes written before the tile in observed order (the first tile sits directly behind the header), TileByteCounts = sizes, for every page",
+       functions=("odc.geo.cog._tifffile._patch_hdr", "odc.geo.cog._tifffile._extract_tile_info"), bounds="<= 4 observed tiles over one or two levels, sizes >= 0 and observation order symbolic; header of 1000 bytes",
+       stubs=("tifffile.TiffFile recorder (tag overwrite recorded)",), setup=setup),
     Ob("L9_make_empty_cog", h_make_empty_cog, tiered([dict(ax="YX", block=16), dict(ax="SYX", block=32), dict(ax="YXS", block=16)], [dict(ax=a, block=b) for a in ("YX", "YXS", "SYX") for b in (16, 32, 64)]),
        descr="_make_empty_cog on every image shape (single-row/column and narrower-than-a-tile included): returns; padded shape per layout rule; overviews exactly half; per-level GeoBoxes; one page per level with the level's shape and tile",
        functions=("odc.geo.cog._tifffile._make_empty_cog", "odc.geo.cog._shared.compute_cog_spec", "odc.geo.types.Shape2d.shrink2", "odc.geo.geobox.GeoBox.zoom_to", "odc.geo.geobox.GeoBox.expand"),
